@@ -264,17 +264,21 @@ def cm3_encode_line(r, prev, cur, prev_last, mode):
     return bytes([contr]) + pk(left_bits) + pk(up_bits) + bytes(lits)
 
 
-def build_cm3(r, pages=None, pattern=None, mode=None, first_row_zero=False):
+def build_cm3(r, pages=None, pattern=None, mode=None, first_row_zero=False, alternate=False):
     pages = pages if pages is not None else r.choice([1, 1, 2])
     pattern = pattern if pattern is not None else (r.randrange(2) == 0)
     mode = mode if mode is not None else r.choice([0, 1, 2, 3])
     pal = rand_pal(r)
     rows = pages * 192
     px = rand_pixels(r, rows * 320)
-    if r.randrange(2) == 0:  # make vertical/horizontal coherence so copy-up/left really happen
+    if alternate or r.randrange(2) == 0:  # make vertical/horizontal coherence so copy-up/left really happen
         for y in range(1, rows):
             if r.randrange(3) == 0:
                 px[y * 320:(y + 1) * 320] = px[(y - 1) * 320:y * 320]
+            elif alternate:
+                for x in range(0, 320, 2):
+                    if r.randrange(2) == 0:
+                        px[y * 320 + x:y * 320 + x + 2] = px[(y - 1) * 320 + x:(y - 1) * 320 + x + 2]
     if first_row_zero:     # the first line copies from the initial (all zero) line buffer
         px[0:320] = [0] * 320
     by = pack_nib(px)
@@ -289,6 +293,8 @@ def build_cm3(r, pages=None, pattern=None, mode=None, first_row_zero=False):
         for y in range(192):
             cur = list(by[(p * 192 + y) * 160:(p * 192 + y + 1) * 160])
             m = mode if mode < 3 else r.randrange(3)
+            if alternate:      # raw and coded lines in turn: a coded line copies from the raw line above it
+                m = 0 if y % 2 == 0 else 1
             data += cm3_encode_line(r, prev, cur, prev_last, m)
             prev, prev_last = cur, cur[159]
     return {"fmt": "cm3", "kind": "valid", "req": req_simple("cm3", bytes(data)), "data": bytes(data),
@@ -416,7 +422,8 @@ def option_products(r):
                 for explicit_rows in (False, True):
                     c = build_max(r, newsroom=newsroom)
                     data = bytes(r.randrange(1, 256) for _ in range(sk)) + c["data"]
-                    rows = c["rows"] if explicit_rows and not newsroom else None
+                    # with the Newsroom header an explicit -r must not change what is announced and written
+                    rows = (c["rows"] + 5 if newsroom else c["rows"]) if explicit_rows else None
                     req = req_max(data, arte=c["arte"], newsroom=newsroom, cols=c["cols"], rows=rows, skip=sk, ignore=ignore)
                     out.append({"fmt": "max", "kind": "option", "req": req, "data": data, "expect": c["expect"],
                                 "arte": c["arte"], "newsroom": newsroom, "cols": c["cols"], "rows": c["rows"]})
@@ -502,6 +509,14 @@ def extremes(r):
                     prev, prev_last = cur, cur[159]
             out.append({"fmt": "cm3", "kind": "valid", "req": req_simple("cm3", bytes(data)), "data": bytes(data),
                         "pal": pal, "pixels": px, "pages": pages, "mode_used": 1})
+    # CM3: every picture-type byte shape with uncoded lines (pages x pattern block x the bits the decoder ignores)
+    for pages in (1, 2):
+        for pattern in (False, True):
+            out.append(build_cm3(r, pages=pages, pattern=pattern, mode=0))
+    # CM3: raw and coded lines in turn (a coded line copies from the raw line above it and vice versa)
+    for pages in (1, 2):
+        c = build_cm3(r, pages=pages, alternate=True)
+        out.append(c)
     # VEF: all three types, squashed with maximal repeat groups (constant rows) and maximal literal groups
     for t in (0, 1, 3):
         width, orig_len, veftype = VEF_TYPES[t]
